@@ -2,8 +2,9 @@
    child_maker/erased.rs, ec-macros dyn_ref_impls): the blanket impl calls the wrapped
    operator with the same generator and converts the error with Into; the pointer
    flavours delegate through a dereference. *)
-From Coq Require Import List.
+From Coq Require Import List ZArith.
 From UEC Require Import Ec.Compose.
+Import ListNotations.
 
 Section Erased.
 Context {S A B E E' : Type}.
@@ -37,3 +38,47 @@ Proof. unfold erase. destruct (f x s) as [[v|e] s']; reflexivity. Qed.
 Lemma erase_twice {S A B E E' E''} (i1 : E -> E') (i2 : E' -> E'') (f : op S A B E) x s :
   erase i2 (erase i1 f) x s = erase (fun e => i2 (i1 e)) f x s.
 Proof. unfold erase. destruct (f x s) as [[v|e] s']; reflexivity. Qed.
+
+(* A CONSUMER of erased selectors: DynWeighted (ec-core/src/operator/selector/dyn_weighted.rs) keeps its options as
+   Box<dyn DynSelector> and hands an option's error on as Other(Box<option's error>).  Its error type is recursive (an
+   option may itself be a DynWeighted); modelled on FORCED lists - at most one option of positive weight, so that the
+   outcome does not depend on the draw. *)
+Inductive derr := DZero | DEmptyPop | DOther (e : derr) | DLeaf (code : Z).
+Inductive dspec := DL (k : Z) | DD (ms : list (dspec * Z)).
+(* what erasing with into = DOther does to an outcome *)
+Definition wrap_other (r : Z + derr) : Z + derr := match r with inl k => inl k | inr e => inr (DOther e) end.
+Fixpoint forced (fuel : nat) (d : dspec) : option (Z + derr) :=
+  match fuel with
+  | O => None
+  | Datatypes.S f =>
+    match d with
+    | DL k => Some (if (0 <=? k)%Z then inl k else inr (DLeaf (- k)))
+    | DD ms => match filter (fun m => (0 <? snd m)%Z) ms with
+               | [] => Some (inr DZero)
+               | [(m, _)] => option_map wrap_other (forced f m)
+               | _ => None
+               end
+    end
+  end.
+
+Lemma wrap_other_is_erase (r : Z + derr) : fst (erase DOther (fun (_ : unit) (s : unit) => (r, s)) tt tt) = wrap_other r.
+Proof. unfold erase, wrap_other. destruct r; reflexivity. Qed.
+(* the only option of positive weight decides, and its error arrives wrapped exactly once *)
+Lemma forced_only_member f m w : (0 < w)%Z -> forced (Datatypes.S f) (DD [(m, w)]) = option_map wrap_other (forced f m).
+Proof. intros H. cbn [forced filter snd]. apply Z.ltb_lt in H. rewrite H. reflexivity. Qed.
+(* options of weight zero are never used *)
+Lemma forced_zero_weight_ignored f m ms : forced (Datatypes.S f) (DD ((m, 0%Z) :: ms)) = forced (Datatypes.S f) (DD ms).
+Proof. reflexivity. Qed.
+(* a list never reports an option's error as its own: what it reports is its own zero-weight error or Other(..) *)
+Lemma forced_never_unwraps f ms e : forced f (DD ms) = Some (inr e) -> e = DZero \/ exists e', e = DOther e'.
+Proof.
+  destruct f as [|f]; [discriminate|]. cbn [forced].
+  destruct (filter (fun m => (0 <? snd m)%Z) ms) as [|[m w] [|x r]]; [intros [= <-]; now left| |discriminate].
+  destruct (forced f m) as [[k|e0]|]; cbn [option_map wrap_other]; [discriminate| |discriminate].
+  intros [= <-]. right. eauto.
+Qed.
+(* the number of Other layers is the nesting depth of the list that failed *)
+Fixpoint others (e : derr) : nat := match e with DOther e' => Datatypes.S (others e') | _ => O end.
+Lemma forced_nested_once_more f m w e :
+  (0 < w)%Z -> forced f m = Some (inr e) -> exists e', forced (Datatypes.S f) (DD [(m, w)]) = Some (inr e') /\ others e' = Datatypes.S (others e).
+Proof. intros H He. rewrite (forced_only_member f m w H), He. cbn. eauto. Qed.
